@@ -1,45 +1,10 @@
 (* Arc_complete.v -- completeness of the arc-based model with respect to the VRPTW of the doc
    (section 2: T_0 = 0, T_{k+1} = max(a, T_k + t), T_k <= b): every set of routes that serves every
    customer exactly once and whose service times are grid points is a feasible binary vector of the
-   right cost.  The reference semantics (eta, vrptw_route, route_cost) is defined first.  [C05] *)
+   right cost, and conversely every route of the arc model is a route of that VRPTW.  The reference
+   semantics (eta, vrptw_route, route_cost, moves_of, indicator) is in Arc_ref.v.  [C05] *)
 From Coq Require Import Sorting.Permutation ZifyBool.
-From VQ Require Import Base Vrptw Vrptw_facts Arc Arc_facts Arc_routes.
-
-(* ---------- reference: earliest-arrival visits of a node sequence ---------- *)
-Fixpoint eta (g : graph) (cur : nat) (T : Z) (seq : list nat) : option (list nt) :=
-  match seq with
-  | [] => Some []
-  | nx :: seq' =>
-      match dict_get (cur, nx) (arcs g) with
-      | None => None                                          (* not an arc *)
-      | Some a =>
-          let T' := Z.max (win_lo g nx) (T + att a) in        (* arrive early and wait *)
-          if ext_leb (Fin T') (win_hi g nx)                   (* never late *)
-          then option_map (cons (nx, T')) (eta g nx T' seq')
-          else None
-      end
-  end.
-
-(* the route depot, cs, depot: Some [(0,0); (c1,T1); ...; (cK,TK); (0,Te)] when it is valid *)
-Definition vrptw_route (g : graph) (cs : list nat) : option (list nt) :=
-  option_map (cons (0%nat, 0)) (eta g 0 0 (cs ++ [0%nat])).
-
-Fixpoint route_cost (g : graph) (cur : nat) (seq : list nat) : Z :=
-  match seq with
-  | [] => 0
-  | nx :: seq' => acost (arc_at g cur nx) + route_cost g nx seq'
-  end.
-
-(* consecutive visits as moves *)
-Fixpoint moves_of (vs : list nt) : list var :=
-  match vs with
-  | p :: ((q :: _) as tl) => (fst p, snd p, fst q, snd q) :: moves_of tl
-  | _ => []
-  end.
-
-(* the 0/1 vector selecting the given moves *)
-Definition indicator (I : inst) (ms : list var) : list Z :=
-  map (fun v => if existsb (var_eqb v) ms then 1 else 0) (vars I).
+From VQ Require Import Base Vrptw Vrptw_facts Arc Arc_ref Arc_facts Arc_routes.
 
 (* ====================================================================== *)
 (* generic list facts                                                      *)
